@@ -1,6 +1,6 @@
 ----------------------------- MODULE Export_C01 -----------------------------
 EXTENDS U_C01, Json, IOUtils
-ASSUME JsonSerialize(IOEnv.JASM_OUT, [m |-> Universe, c |-> UniverseCase])
+ASSUME JsonSerialize(IOEnv.JASM_OUT, [m |-> Universe, c |-> UniverseCase, n |-> UniverseNum])
 VARIABLE x
 Init == x = 0
 Next == x' = x
